@@ -18,6 +18,9 @@ import (
 	"github.com/TheManticoreProject/Manticore/network/smb/smb_v10/message/commands"
 	"github.com/TheManticoreProject/Manticore/network/smb/smb_v10/message/commands/codes"
 	"github.com/TheManticoreProject/Manticore/network/smb/smb_v10/message/commands/command_interface"
+	"github.com/TheManticoreProject/Manticore/network/smb/smb_v10/message/header"
+	"github.com/TheManticoreProject/Manticore/network/smb/smb_v10/message/securityfeatures"
+	"github.com/TheManticoreProject/Manticore/network/smb/smb_v10/types"
 )
 
 type gExpr struct {
@@ -539,8 +542,33 @@ func smbSlot(a []string) string {
 	return fmt.Sprintf("ok %d %d %d", lo, hi+1, n)
 }
 
+// Header.Marshal on explicit field values (security features as 8 reserved bytes)
+func smbHdr(a []string) string {
+	h := header.NewHeader()
+	copy(h.Protocol[:], unhx(a[0]))
+	h.Command = codes.CommandCode(atoiU(a[1], 8))
+	h.Status = types.ULONG(atoiU(a[2], 32))
+	h.SetFlags(uint8(atoiU(a[3], 8)))
+	h.SetFlags2(uint16(atoiU(a[4], 16)))
+	h.PIDHigh = types.USHORT(atoiU(a[5], 16))
+	sf := securityfeatures.NewSecurityFeaturesReserved()
+	copy(sf.Reserved[:], unhx(a[6]))
+	h.SecurityFeatures = sf
+	h.Reserved = types.USHORT(atoiU(a[7], 16))
+	h.TID = types.USHORT(atoiU(a[8], 16))
+	h.PIDLow = types.USHORT(atoiU(a[9], 16))
+	h.UID = types.USHORT(atoiU(a[10], 16))
+	h.MID = types.USHORT(atoiU(a[11], 16))
+	b, err := h.Marshal()
+	if err != nil {
+		return "err"
+	}
+	return okHex(b)
+}
+
 func smbOps() []OpDef {
 	return []OpDef{
+		{Name: "smb.hdr", Impl: smbHdr},
 		{Name: "smb.enc", Impl: smbEnc},
 		{Name: "smb.dec", Impl: smbDec},
 		{Name: "smb.rt", Impl: smbRt},
